@@ -1,0 +1,44 @@
+//go:build verif
+
+// Contracts for package core, read by /verif's gcv (comment-only file).
+package core
+
+//@ type StaticStrategyToken
+//@   immutable: acquired, inFlightCount, releaseFunc
+
+//@ func NewNotAcquiredStrategyToken
+//@   ensures[C01,C02] shape: dyntype(result, "*core.StaticStrategyToken") && fresh(ref(result))
+//@   ensures[C01,C02] not_acquired: as(result, "*core.StaticStrategyToken").acquired == false
+//@   ensures[C20] count: as(result, "*core.StaticStrategyToken").inFlightCount == inFlightCount
+//@   ensures[C02] release_noop: isfunc(as(result, "*core.StaticStrategyToken").releaseFunc, "core.NewNotAcquiredStrategyToken$1")
+//@   assigns nothing
+
+//@ func NewNotAcquiredStrategyToken$1
+//@   ensures[C02] noop: true
+//@   assigns nothing
+
+//@ func NewAcquiredStrategyToken
+//@   ensures[C01,C02] shape: dyntype(result, "*core.StaticStrategyToken") && fresh(ref(result))
+//@   ensures[C01,C02] acquired: as(result, "*core.StaticStrategyToken").acquired == true
+//@   ensures[C20] count: as(result, "*core.StaticStrategyToken").inFlightCount == inFlightCount
+//@   ensures[C02] release_bound: as(result, "*core.StaticStrategyToken").releaseFunc == releaseFunc
+//@   assigns nothing
+
+//@ func (*StaticStrategyToken).IsAcquired
+//@   ensures[C02] value: result == t.acquired
+//@   assigns nothing
+
+//@ func (*StaticStrategyToken).InFlightCount
+//@   ensures[C20] value: result == t.inFlightCount
+//@   assigns nothing
+
+//@ func (*StaticStrategyToken).Release
+//@   inline
+
+//@ func (*CommonMetricSampler).Sample
+//@   ensures[C20] nil_noop: s == nil ==> nevents() == 0
+//@   ensures[C20] rtt_once: s != nil ==> ncallsOn(s.RTTListener, "core.MetricSampleListener.AddSample") >= 1
+//@   ensures[C20] count: s != nil ==> ncalls("core.MetricSampleListener.AddSample") == ite(didDrop, 3, 2)
+//@   ensures[C20] drop_iff: s != nil && didDrop ==> callrecv("core.MetricSampleListener.AddSample", 0) == s.DropCounterListener && callarg("core.MetricSampleListener.AddSample", 0, 0) == 1.0
+//@   ensures[C20] rtt_value: s != nil ==> callrecv("core.MetricSampleListener.AddSample", ite(didDrop, 1, 0)) == s.RTTListener
+//@   assigns nothing
